@@ -222,7 +222,7 @@ def classify_site(c, h, n, anc, kind, facts, pv):
             bad = sorted(x for x in tags if not (x.startswith("ir:") or x in ("sanitize", "literal", "int")))
             if not bad:
                 return "I7", "identifier from an IR name field / sanitiser (C08.W1)"
-            if bad == ["api:lifetime"]:
+            if bad == ["api:Type<'a>::parameter_ident_with_lifetime#1"]:
                 return "I10", "lifetime name is an argument of the public API parameter_ident_with_lifetime and must be an identifier by contract"
             return None, "format_ident! on a caller-supplied string %s panics if it is not an identifier" % bad
         if name in PANIC_MACROS:
@@ -235,8 +235,12 @@ def classify_site(c, h, n, anc, kind, facts, pv):
                 return "I6", "property-default renderer: the cells it cannot render are rejected or classified Optional at add time (C06.D1/D2)"
             if "arm:Err(_)" in g and "from_str(" in g:
                 return "I3", "numeric literal printed from a serde_json number with a generator type suffix"
-            if re.search(r"arm:VariantDetails::Item\(_\) \| VariantDetails::Tuple\(_\)", g) and any("tag" == b for b in [x["name"] for p in h.get("params", []) for x, _ in walk(p) if x.get("k") == "bind"]):
-                return "I11", "internally tagged enums only hold Simple or Struct variants (checked below)"
+            if re.search(r"arm:VariantDetails::Item\(_\) \| VariantDetails::Tuple\(_\)", g):
+                # is this fn the renderer of internally tagged enums? (called from an `EnumTagType::Internal` arm)
+                for hh in c.user_fns():
+                    for x, xa in walk(hh["body"]):
+                        if x.get("k") in ("call", "mcall") and x.get("fn") == h["fn"] and any(gg[0] == "arm" and "EnumTagType::Internal" in gg[1] for gg in guards(xa, x)):
+                            return "I11", "internally tagged enums only hold Simple or Struct variants (checked below)"
             if "StructPropertyRename::Flatten" in g and "filter_map" in g:
                 return "I12", "flattened members are structs, options or maps; the same case analysis runs on the default at add time (all_props)"
             return None, "%s!() reachable under %s" % (name, g[:80] or "no condition")
@@ -300,7 +304,13 @@ def rule_W1(facts, rep, c):
             if n["name"] == "insert" and src(n["recv"]).endswith("id_to_entry") and "Reference" in src(n["args"]):
                 stored_ref.append(h["fn"])
     at = [h for h in c.user_fns() if h["fn"].endswith("TypeSpace::assign_type")]
-    ok = not stored_ref and bool(at) and src(at[0]["body"]).startswith("{ if let TypeEntryDetails::Reference(type_id) = ty.details { type_id }")
+    ok = False
+    if at and not stored_ref:
+        first = block_last(at[0]["body"])
+        if first.get("k") == "if" and first["cond"].get("k") == "letx" and psrc(first["cond"]["pat"]).startswith("TypeEntryDetails::Reference(") and first["cond"]["init"].get("k") == "field" and first["cond"]["init"]["name"] == "details":
+            b_ = [x["name"] for x, _ in walk(first["cond"]["pat"]) if x.get("k") == "bind"]
+            tl = strip_refs(block_last(first["then"]))
+            ok = tl.get("k") == "path" and [tl.get("path")] == b_
     rep.ob("C01.W1", "I5:references-never-stored", ok, "assign_type resolves a Reference to its target id instead of storing it" if ok else "a Reference entry can be stored in id_to_entry")
     # untagged enums with indistinguishable data-less variants are rejected at add time (discharges the assert in the enum emitter)
     ue = [h for h in c.user_fns() if h["fn"].endswith("TypeSpace::untagged_enum")]
